@@ -647,7 +647,7 @@ func genAdvPeer(rt *rapid.T, nm *hx.NodeMachine, cfg genCfg) hx.NOp {
 			}
 		}
 	case 5:
-		op.CBIn = rapid.IntRange(1, 3).Draw(rt, "cbin")
+		op.CBIn = rapid.SampledFrom([]int{1, 2, 3, 5}).Draw(rt, "cbin")
 		op.Expect = "coinbase-with-input-or-write"
 	case 6:
 		// the first transaction of the block is a plain transfer that its initiator did not sign
